@@ -104,12 +104,13 @@ type PipeOpts struct {
 }
 
 type Net struct {
-	mu       sync.Mutex
-	seq      int64
-	pipes    []*Pipe
-	TapBytes bool // keep a copy of every byte per direction
-	KeepEv   bool // keep the event list
-	Events   []Event
+	mu        sync.Mutex
+	seq       int64
+	pipes     []*Pipe
+	TapBytes  bool // keep a copy of every byte per direction
+	KeepReads bool // log (stream offset, time) of every Read call per direction
+	KeepEv    bool // keep the event list
+	Events    []Event
 	// BeforeWrite, if set, is called at the start of every Conn.Write (no locks held); it may
 	// break the connection so that this very Write fails.
 	BeforeWrite func(c *Conn)
@@ -141,6 +142,21 @@ type half struct {
 	cutKind    string
 	readerGone bool
 	failNext   bool
+	readCalls  []ReadCall
+}
+
+// ReadCall records that the reader came back for more at stream offset Off at time T.
+type ReadCall struct {
+	Off int64
+	T   time.Time
+}
+
+// ReadCalls returns the logged Read calls of direction dir (needs Net.KeepReads).
+func (p *Pipe) ReadCalls(dir int) []ReadCall {
+	h := p.h[dir]
+	h.mu.Lock()
+	defer h.mu.Unlock()
+	return append([]ReadCall{}, h.readCalls...)
 }
 
 type Pipe struct {
@@ -374,6 +390,9 @@ func (c *Conn) Read(b []byte) (int, error) {
 	h := c.rh()
 	h.mu.Lock()
 	defer h.mu.Unlock()
+	if c.p.n.KeepReads {
+		h.readCalls = append(h.readCalls, ReadCall{Off: h.readOff, T: time.Now()})
+	}
 	for {
 		if c.isClosed() {
 			return 0, ErrClosed
